@@ -9,7 +9,7 @@ acquire_env:   lock cached_env                                   (lock)
                                                                   notifier mutex; polls the freshness
                                                                   callback only when the flag is false)
                prepare_and_mark_reload(): should_reload = false   (reset)
-               is_none() || !notifier.fast_reload()               (readFast)
+               is_none() || !fast_reload (value returned by prepare)   (decide; no shared access)
                creator(weak_notifier)  |  clear_templates()       (creator start … creator end | clear)
                on creator failure: should_reload = true, return Err   (remark, release)
                Ok(EnvironmentGuard)                               (handout)   … drop(guard) (release)
@@ -76,6 +76,9 @@ structure Active where
   sawFlag : Bool := false     -- the check read `should_reload == true`
   buildStart : Nat := 0
   built : Bool := false       -- this acquire ran the creator successfully
+  fastSeen : Bool := false    -- `fast_reload` as read ONCE by prepare_and_mark_reload: decides both
+                              -- the watcher drop and create-vs-clear
+  droppedW : Bool := false    -- ghost: this acquire's prepare threw the fs watcher away
   deriving DecidableEq, Repr
 
 inductive Thread where
@@ -130,6 +133,7 @@ structure State where
   persistent : Bool := false      -- NotifierImpl.persistent_fs_watcher
   watching : Bool := false        -- NotifierImpl.fs_watcher.is_some() (with the registered paths)
   registered : Bool := false      -- ghost: watch_path was called at least once
+  clearsAfterDrop : Nat := 0      -- ghost: fast-reload clears done by an acquire that had dropped the watcher
   lastDrop : Option (Bool × Bool) := none  -- ghost: (persistent, fast) when the live watcher was last
                                   -- thrown away by a reload and not re-registered since
   poisoned : Bool := false        -- the cached_env mutex is poisoned (a creator panicked under it)
@@ -183,15 +187,16 @@ def stepActive (σ : State) (c : Active) : Option State :=
       else
         some { σ with now := t + 1, cur := some { c with pc := .checked false, checkedAt := t, sawFlag := false } }
   | .checked true =>
-    -- prepare_and_mark_reload: [maybe drop the fs watcher] then [flag := false]; two critical sections
-    -- on disjoint fields, merged (any step of another thread between them commutes with one of them)
+    -- prepare_and_mark_reload: [read fast_reload once, maybe drop the fs watcher] then [flag := false];
+    -- two critical sections, merged (a step of another thread between them commutes with the second)
     let drop := dropWatcher σ.persistent σ.fast
     some { σ with now := t + 1, flag := false,
                   watching := if drop then false else σ.watching,
                   lastDrop := if drop && σ.watching then some (σ.persistent, σ.fast) else σ.lastDrop,
-                  cur := some { c with pc := .reset } }
+                  cur := some { c with pc := .reset, fastSeen := σ.fast, droppedW := drop } }
   | .reset =>
-    if σ.env.isNone || !σ.fast then
+    -- no shared access: the decision uses the value prepare_and_mark_reload returned
+    if σ.env.isNone || !c.fastSeen then
       some { σ with now := t + 1, cur := some { c with pc := .toCreate } }
     else
       some { σ with now := t + 1, cur := some { c with pc := .toClear } }
@@ -227,6 +232,7 @@ def stepActive (σ : State) (c : Active) : Option State :=
     match σ.env with
     | some e =>
       some { σ with now := t + 1, clears := σ.clears + 1,
+                    clearsAfterDrop := if c.droppedW then σ.clearsAfterDrop + 1 else σ.clearsAfterDrop,
                     env := some { e with freshAt := t, clears := e.clears + 1 },
                     cur := some { c with pc := .cleared } }
     | none => none      -- `mutex_guard.as_mut().unwrap()` would panic; unreachable (see C20)
